@@ -73,7 +73,7 @@ PROPS["C10"] = {
     "functions": ["derive(PartialOrd, Ord, PartialEq, Eq) on Kmer (storage integer)", "Ord/PartialOrd on Seq", "Iterator::min over KmerIter",
                   "From<&Kmer> for usize"],
     "bounds": {"all": "two/three fully symbolic canonical k-mers per (codec, K) instance listed; minimiser: K=4 over a 6-symbol window at "
-                      "symbolic offset 0..58 of two symbolic words; owned sequences: equal length n<=2 (quick) / 3 (thorough), symbolic content"},
+                      "symbolic offset 0..58 of two symbolic words; owned sequences: equal length n<=2 (quick) / 3 (thorough), symbolic content; 33 Dna symbols (11 Amino in thorough) over two storage words with a shared concrete low part and symbolic bits 56..66 on both sides of the word boundary"},
     "outside": "K not instantiated; sequences longer than 3 symbols (the comparison is a per-bit loop on heap bit-vectors)",
 }
 
@@ -111,7 +111,7 @@ PROPS["C02"] = {
                   "Borrow<SeqSlice> for Seq, AsRef, Deref"],
     "bounds": {"all": "two windows of 2-3 symbolic words at independent symbolic offsets, symbolic lengths up to 8 Dna / 3 Amino / 3 masked-Iupac symbols "
                       "(33 Dna in thorough); hasher input recorded byte by byte (<= 96 bytes) for windows of 1-3 symbols and k-mers K*BITS below/at the word; "
-                      "owned sequences at concrete boundary shapes"},
+                      "owned sequences at concrete boundary shapes; sequence == text for Dna, Amino and the case-carrying masked::Dna (masked::Iupac, Iupac in thorough): symbolic window, symbolic text of up to 2-3 ASCII bytes"},
     "outside": "HashMap::get itself is not executed (RandomState/SipHash, see C15); longer sequences",
 }
 
@@ -122,7 +122,7 @@ PROPS["C08"] = {
     "functions": ["SeqSlice::kmers", "KmerIter::next", "Kmer::unsafe_from", "TryFrom<&SeqSlice>/TryFrom<Seq> for Kmer", "From<Kmer> for Seq", "kmer! (concrete literals)",
                   "SeqSlice::windows (comparison)"],
     "bounds": {"all": "window of n symbols (n in {K-1,K,K+1,K+2} per instance) at symbolic offset in 2-3 (6 for K=64) symbolic words; try_from with symbolic "
-                      "length K-? .. K+2 at symbolic offset; (codec,K,storage) instances as listed in coverage.harnesses"},
+                      "length K-? .. K+2 at symbolic offset; (codec,K,storage) instances as listed in coverage.harnesses; from_str with one symbolic byte (K=2), wrong-length texts for K in {1,3} and concrete texts one character too long/short for k-mers that fill their storage exactly (text K=8 usize/u64, text K=16 u128, Amino K=21 u128; Dna K=32, Iupac K=32 u128, Dna K=64 u128 in thorough)"},
     "outside": "K not instantiated; FromStr/Display of k-mers go through text formatting (see C01 for the parser); sequences longer than K+2",
 }
 
@@ -133,7 +133,7 @@ PROPS["C11"] = {
     "functions": ["SeqIter::next", "RevIter::next", "SeqChunks::next", "SeqSlice::{iter,rev_iter,windows,chunks,chain}", "IntoIterator for &Seq / &SeqSlice",
                   "FromIterator<&SeqSlice> for Vec<Seq> (two windows)"],
     "bounds": {"all": "window at symbolic offset with symbolic length n <= 6 (2-bit) / 4 (5,6-bit); windows/chunks with symbolic width 1..n+2; every iterator "
-                      "is driven n+1 (max+1) times so termination within the bound is part of the claim"},
+                      "is driven n+1 (max+1) times so termination within the bound is part of the claim; partly consumed iterators (symbolic number k <= n <= 4 of next() calls) drained through fold / count / last, forward and reverse"},
     "outside": "n > 6; collecting more than a few windows into a Vec (Vec growth)",
 }
 
@@ -227,7 +227,7 @@ PROPS["C06"] = {
     "bounds": {"all": "single edit step (inductive) from an owned state with fully symbolic content: concrete shapes - state length 0..6 (31/34 in thorough) "
                       "copied from a window at symbol offset 3 (or word-straddling offsets for 5/6-bit codecs), argument windows of 0-3 symbols at independent "
                       "offsets incl. word-straddling ones; every RangeBounds form for remove; positions front/middle/end for insert; result compared with the "
-                      "list model at a symbolic probe position; two 2-step compositions as cross-check"},
+                      "list model at a symbolic probe position; two 2-step compositions as cross-check; one remove whose region is exactly one storage word long and starts off a word boundary (5..37 of 40 Dna symbols; 3..19 of 20 Iupac symbols in thorough)"},
     "outside": "long random histories (covered only through the single-step induction: every step re-establishes 'length multiple of BITS, content = list'); "
                "growth beyond capacity relies on bitvec/alloc reallocation preserving content",
     "level_text": "bounded model checking of one inductive edit step per operation and shape; histories of any length follow if each step preserves the "
@@ -240,8 +240,9 @@ PROPS["C19"] = {
     "mem_gb": 16,
     "functions": ["From<&SeqSlice<A>>/From<&SeqArray>/From<SeqArray> for Seq<B>", "From<Dna> for Iupac", "From<dna::Dna> for text::Dna", "TryFrom<text::Dna> for dna::Dna", "Seq::trim_u8"],
     "bounds": {"all": "symbol maps: exhaustive by solver (4 bases; all 256 text bytes); conversions: windows of 2-3 Dna symbols at concrete offsets incl. the "
-                      "word-straddling one, symbolic content; trimming: byte strings of length 0..4 with ONE fully symbolic byte (all 256 values) at each "
-                      "position among concrete neighbours chosen to put it at the start, the interior and the end of the acceptable span"},
+                      "word-straddling one, symbolic content; trimming: CONCRETE representative byte strings of length 0..7 (padding, lower-case flanks, interior bad bytes, "
+                      "all-bad, empty, and bytes that are not UTF-8 at the start, at the end, in the interior and alone) executed by the engine and "
+                      "compared with the span oracle; a symbolic byte makes the span symbolic and the collecting parser does not finish (40 GB)"},
     "outside": "trimming of arbitrary byte strings (only concrete representatives are executed); conversions of longer sequences",
     "assumptions": ["the trimming clause of the property is exercised on concrete representative inputs only; it is not claimed for all byte strings"],
 }
